@@ -1239,9 +1239,8 @@ def audit(out: OutputBuffer, aconf: AuditConf, sshv: Optional[int] = None, print
                 payload_txt = '"{}"'.format(repr(payload).lstrip('b')[1:-1])
             if payload_txt == 'Protocol major versions differ.':
                 if sshv == 2 and aconf.ssh1:
-                    ret = audit(out, aconf, 1)
-                    out.write()
-                    return ret
+                    # The caller writes the output buffer (main() for a single target, or the worker's result block when scanning a target list).
+                    return audit(out, aconf, 1, print_target=print_target)
             err = '[exception] error reading packet ({})'.format(payload_txt)
         else:
             err_pair = None
